@@ -39,13 +39,13 @@ def evaluate(spec):
     else:
         o1 = oracle.run_e2e(b, wd, keys=v, name="variant")
     f1 = oracle.base_failure(o1)
-    dims = sum(1 for k in ("shuffle", "crlf") if v.get(k)) + sum(1 for k in ("comments", "blanks", "unrelated", "dup") if v.get(k, 0) > 0) + \
+    dims = (2 if v.get("explicit") else 0) + sum(1 for k in ("shuffle", "crlf") if v.get(k)) + sum(1 for k in ("comments", "blanks", "unrelated", "dup") if v.get(k, 0) > 0) + \
         (1 if v.get("upper", "none") != "none" else 0)
     uses_dsb = bool(v.get("dsb"))
     labels = ["dsbpos:" + v.get("dsb_pos", "first") if v.get("dsb") else "dsbpos:-", "delivery:" + ("dsb-only" if uses_dsb and not v.get("file", True) else "file+dsb" if uses_dsb else "file"),
               "dsbs:%d" % len(v.get("dsb") or []), "upper:" + v.get("upper", "none"), "sub" if sub else "inproc",
               "kinds:" + "+".join(sorted({c["kind"] for c in spec["conns"]}))]
-    for k in ("shuffle", "crlf", "comments", "blanks", "unrelated", "dup"):
+    for k in ("shuffle", "crlf", "comments", "blanks", "unrelated", "dup", "explicit"):
         if v.get(k):
             labels.append("decor:" + k)
     nontrivial = bool(o0.pkts) and (dims >= 2 or uses_dsb)
@@ -72,7 +72,7 @@ def evaluate(spec):
 def variant(draw, nlines, tls_only, allow_sub=True):
     v = {"seed": draw(st.integers(0, 1 << 30)), "shuffle": draw(st.booleans()), "crlf": draw(st.booleans()),
          "comments": draw(st.sampled_from([0, 0, 1, 3])), "blanks": draw(st.sampled_from([0, 0, 1, 2])),
-         "unrelated": draw(st.sampled_from([0, 0, 2])), "dup": draw(st.sampled_from([0, 0, 1, 2])),
+         "unrelated": draw(st.sampled_from([0, 0, 2])), "dup": draw(st.sampled_from([0, 0, 1, 2, 6, 15])),
          "upper": draw(st.sampled_from(["none", "none", "cr", "sec", "both", "mixed"]))}
     mode = draw(st.sampled_from(["file", "dsb_only", "dsb_only", "file+dsb", "split", "partition"]))
     idx = list(range(nlines))
@@ -122,15 +122,51 @@ def spec_strategy(draw, sub=False):
     return sc
 
 
+def line_order_specs(tier):
+    """every order of the lines of one connection's key log x one line repeated at every position (quick: a seeded sample)"""
+    import itertools
+    import random
+    rnd = random.Random(engine.derive_seed(os.environ.get("VERIF_SEED", "1"), PID, "line-orders"))
+    bases = []
+    ep = {"v6": False, "cmac": "020000000001", "smac": "020000000002", "sport": 443, "cport": 40001, "cip": "10.1.2.3", "sip": "192.168.7.9"}
+    for ver, suite, extra in ((0x0304, 0x1301, {}), (0x0304, 0x1303, {"tickets": 1}), (0x0303, 0xC02F, {}), (0x0301, 0x002F, {})):
+        c = {"kind": "tls", "version": ver, "suite": suite, "seed": 77 + suite, "ep": ep, "history": [[0, 120, 0], [1, 300, 0], [0, 40, 0], [1, 33, 0]], "hs_secrets": True}
+        c.update(extra)
+        bases.append({"conns": [c], "order": [0], "tseed": 5})
+    q = {"kind": "quic", "suite": 0x1301, "seed": 4242, "ep": dict(ep, cport=40002),
+         "steps": [{"op": "data", "d": 0, "pk": [{"fr": [["stream", 0, 50, None, False, True, None]], "gap": 0, "pnl": 0}]},
+                   {"op": "data", "d": 1, "pk": [{"fr": [["stream", 0, 90, None, False, True, None]], "gap": 0, "pnl": 0}]}]}
+    bases.append({"conns": [q], "order": [0], "tseed": 5})
+    out = []
+    for base in bases:
+        n = len(scenario.build_conns(base).keylog)
+        allv = []
+        for perm in itertools.permutations(range(n)):
+            for line in range(n):
+                for pos in range(n + 1):
+                    e = list(perm)
+                    e.insert(pos, line)
+                    allv.append(e)
+        if tier == "quick":
+            allv = rnd.sample(allv, min(len(allv), 120))
+        for e in allv:
+            sc = dict(base)
+            sc["variant"] = dict(scenario.DEFAULT_KEYS, explicit=e, file=True, dsb=[])
+            out.append(sc)
+    return out
+
+
 def stages(tier):
     quick = tier == "quick"
     return [
+        Stage("line-orders", evaluate, specs=line_order_specs(tier)),
         Stage("variants", evaluate, strategy=lambda t: spec_strategy(False), examples=500 if quick else 15000),
         Stage("dsb-only-subprocess", evaluate, strategy=lambda t: spec_strategy(True), examples=32 if quick else 600, shrink=False),
     ]
 
 
-RULE = ("a TLS and/or QUIC scenario is run with its canonical key log file and with a generated delivery variant: line permutation, LF/CRLF, "
+RULE = ("stage line-orders: for a TLS 1.3 (with and without tickets), TLS 1.2, TLS 1.0 and QUIC connection, every order of its key-log lines with one line "
+        "repeated at every position (quick: 120 sampled per connection); other stages: a TLS and/or QUIC scenario is run with its canonical key log file and with a generated delivery variant: line permutation, LF/CRLF, "
         "comment / blank / unrelated / duplicate lines, upper/lower/mixed-case hex in client random and secret, file only / DSB only (no -s) / "
         "file + DSB / log split over 2-4 DSBs (blocks may be empty) / lines partitioned between file and DSB, DSBs before the interface description block, first after it, or (TLS-only captures) "
         "anywhere; stage dsb-only-subprocess runs `python -m tlexport.main` without -s from three different working directories; oracle: output "
